@@ -1,9 +1,10 @@
 (* LexSpell.v — what the lexer makes of a given spelling (C14): unquoted
    identifiers, quoted identifiers, raw strings, JSON literals.  All statements
    are about tokenizeS (LexView.v), i.e. about tokenize. *)
-From JM Require Import Model.Base Model.Num Model.Utf8 Model.Value Model.JsonText Model.Lexer.
+From JM Require Import Model.Base Model.Num Model.Utf8 Model.Value Model.JsonText Model.Lexer Model.Parser Model.Slice
+     Model.Functions Model.Interp Model.Api.
 From JM Require Import Spec.Grammar.
-From JM Require Import gen.Tables Proofs.TablesOk Proofs.ValueFacts Proofs.LexerTotal Proofs.LexView.
+From JM Require Import gen.Tables Proofs.TablesOk Proofs.ValueFacts Proofs.LexerTotal Proofs.LexView Proofs.Utf8Facts Proofs.JsonString.
 From Coq Require Import ZifyBool.
 
 Section WithNum.
@@ -747,7 +748,7 @@ Qed.
 
 Lemma stepS_conts b s0 : let '(r, k, s') := stepS (b :: s0) in
   exists conts, b :: s0 = b :: conts ++ s' /\ zlen conts = k - 1 /\ Forall (fun x => N.leb 128 x = true) conts /\
-                (r = 39 \/ r = 92 \/ r = 34 \/ r = 96 -> conts = [] /\ r = Z.of_N b).
+                (r < 128 -> conts = [] /\ r = Z.of_N b).
 Proof.
   pose proof (decode_rune_conts b s0) as C. pose proof (stepS_first b s0) as F.
   pose proof (stepS_split (b :: s0) ltac:(discriminate)) as Sp.
@@ -897,5 +898,326 @@ Proof.
     by (unfold e, zlen; cbn [length]; lia).
   subst f1. rewrite lex_eof. reflexivity.
 Qed.
+
+
+(* ---- byte-level reading of scan_until ---- *)
+Fixpoint scan_untilB (endr : N) (s : bytes) : option (bytes * bytes) :=
+  match s with
+  | [] => None
+  | b :: s' =>
+    if N.eqb b endr then Some ([], s')
+    else if N.eqb b 92 then
+      match s' with
+      | [] => None
+      | c1 :: s'' => map_fst (fun x => b :: c1 :: x) (scan_untilB endr s'')
+      end
+    else map_fst (cons b) (scan_untilB endr s')
+  end.
+
+Lemma scan_untilB_copy endr conts : N.ltb endr 128 = true ->
+  Forall (fun x => N.leb 128 x = true) conts -> forall s',
+  scan_untilB endr (conts ++ s') = map_fst (app conts) (scan_untilB endr s').
+Proof.
+  intros He. induction 1 as [|x conts Hx _ IH]; intros s'.
+  - cbn. destruct (scan_untilB endr s') as [[? ?]|]; reflexivity.
+  - cbn [app scan_untilB]. assert (N.eqb x endr = false) as -> by lia. assert (N.eqb x 92 = false) as -> by lia.
+    rewrite IH. destruct (scan_untilB endr s') as [[? ?]|]; reflexivity.
+Qed.
+
+Lemma scan_until_bytes endr : N.ltb endr 128 = true -> N.eqb endr 92 = false ->
+  forall fuel s, (length s < fuel)%nat -> scan_until fuel (Z.of_N endr) s = scan_untilB endr s.
+Proof.
+  intros He He92. induction fuel as [|f IH]; intros s Hf; [lia|]. destruct s as [|b s0]; [reflexivity|].
+  cbn [scan_until]. pose proof (stepS_conts b s0) as C. pose proof (stepS_first b s0) as F.
+  destruct (stepS (b :: s0)) as [[r k] s'] eqn:Es. destruct C as [conts [Hsp [Hzc [Hc Hascii]]]].
+  assert (Hs0 : s0 = conts ++ s') by (inversion Hsp; reflexivity). clear Hsp.
+  assert (Hlen : (length s' < f)%nat) by (rewrite Hs0 in Hf; cbn [length] in Hf; rewrite app_length in Hf; lia).
+  assert (Hfirst : forall n, firstn (S (length conts) + n) (b :: s0) = b :: conts ++ firstn n s').
+  { intros n. rewrite Hs0. cbn [Nat.add firstn]. f_equal. rewrite firstn_app. rewrite firstn_all2 by lia.
+    f_equal. f_equal. lia. }
+  assert (Hk : Z.to_nat k = S (length conts)) by (unfold zlen in Hzc; lia).
+  clear Es.
+  destruct (r =? Z.of_N endr) eqn:E1.
+  { destruct (Hascii ltac:(lia)) as [-> Hr]. cbn [app] in *. cbn [scan_untilB].
+    assert (N.eqb b endr = true) as -> by lia. subst s0. reflexivity. }
+  assert (Hbe : N.eqb b endr = false).
+  { destruct F as [[Hb [Hr _]]|[Hb _]]; lia. }
+  destruct (r =? 92) eqn:E92.
+  - destruct (Hascii ltac:(lia)) as [-> Hr]. cbn [app length] in *. subst s0.
+    cbn [scan_untilB]. rewrite Hbe. assert (N.eqb b 92 = true) as -> by lia.
+    destruct s' as [|c1 s1]; [reflexivity|].
+    pose proof (stepS_conts c1 s1) as C2.
+    destruct (stepS (c1 :: s1)) as [[r2 k2] s''] eqn:Es2. destruct C2 as [conts2 [Hsp2 [Hzc2 [Hc2 _]]]].
+    assert (Hs1 : s1 = conts2 ++ s'') by (inversion Hsp2; reflexivity). clear Hsp2.
+    rewrite IH by (subst s1; cbn [length] in *; rewrite app_length in *; lia).
+    subst s1. rewrite (scan_untilB_copy endr conts2 He Hc2).
+    replace (Z.to_nat (k + k2)) with (1 + (S (length conts2) + 0))%nat by (unfold zlen in *; cbn [length] in *; lia).
+    cbn [Nat.add firstn]. rewrite firstn_app, firstn_all2 by lia.
+    replace (length conts2 + 0 - length conts2)%nat with 0%nat by lia. cbn [firstn]. rewrite app_nil_r.
+    destruct (scan_untilB endr s'') as [[? ?]|]; reflexivity.
+  - assert (Hb92 : N.eqb b 92 = false).
+    { destruct F as [[Hb [Hr _]]|[Hb _]]; lia. }
+    rewrite IH by exact Hlen. cbn [scan_untilB]. rewrite Hbe, Hb92. subst s0.
+    rewrite (scan_untilB_copy endr conts He Hc).
+    rewrite Hk. replace (S (length conts)) with (S (length conts) + 0)%nat by lia.
+    rewrite (Hfirst 0%nat). cbn [firstn]. rewrite app_nil_r.
+    destruct (scan_untilB endr s') as [[? ?]|]; reflexivity.
+Qed.
+
+(* a body in which every delimiter and every backslash is escaped by a backslash *)
+Fixpoint clean (endr : N) (s : bytes) : bool :=
+  match s with
+  | [] => true
+  | b :: s' =>
+    if N.eqb b endr then false
+    else if N.eqb b 92 then match s' with [] => false | _ :: s'' => clean endr s'' end
+    else clean endr s'
+  end.
+
+Lemma scan_clean endr rest : forall n body, (length body <= n)%nat -> clean endr body = true ->
+  scan_untilB endr (body ++ endr :: rest) = Some (body, rest).
+Proof.
+  induction n as [|n IH]; intros body Hn Hc.
+  - destruct body; [|cbn in Hn; lia]. cbn. rewrite N.eqb_refl. reflexivity.
+  - destruct body as [|b body]; [cbn; rewrite N.eqb_refl; reflexivity|].
+    cbn [clean] in Hc. cbn [app scan_untilB]. destruct (N.eqb b endr); [discriminate|].
+    destruct (N.eqb b 92).
+    + destruct body as [|c1 body]; [discriminate|]. cbn [app]. rewrite IH by (auto; cbn [length] in *; lia). reflexivity.
+    + rewrite IH by (auto; cbn [length] in *; lia). reflexivity.
+Qed.
+
+
+(* ---- quoted identifiers and JSON literals as whole expressions ---- *)
+Lemma consumeUntilS_clean endr p body rest w : N.ltb endr 128 = true -> N.eqb endr 92 = false -> 0 <= p ->
+  clean endr body = true ->
+  consumeUntilS (Z.of_N endr) (AS p (body ++ endr :: rest) w) = Ok (body, AS (p + zlen body + 1) rest 1).
+Proof.
+  intros He He92 Hp Hc. rewrite consumeUntilS_scan by lia.
+  rewrite scan_until_bytes by (auto; lia). rewrite (scan_clean endr rest (length body) body (Nat.le_refl _) Hc). reflexivity.
+Qed.
+
+(* "body" read as an expression: one quoted-identifier token holding the JSON
+   decoding of the body (or the decoding error) *)
+Theorem quoted_identifier_lexes body :
+  clean 34 body = true ->
+  tokenizeS (34%N :: body ++ [34%N]) =
+  match json_unquote body with
+  | Some d => Ok [Token tQuotedIdentifier d 0 (zlen d); Token tEOF [] (zlen body + 2) 0]
+  | None => Err ECompileOther
+  end.
+Proof.
+  intros Hc. unfold tokenizeS. set (e := 34%N :: body ++ [34%N]).
+  remember (S (length e)) as f1 eqn:Ef1.
+  cbn [tokenize_loopS]. unfold nextS at 1. cbn [asuf ap]. unfold e at 1. rewrite (stepS_ascii 34) by reflexivity.
+  assert (ident_start (Z.of_N 34) = false) as -> by (vm_compute; reflexivity).
+  assert (assoc_Z (Z.of_N 34) basic_tokens = None) as -> by (vm_compute; reflexivity).
+  cbn -[tokenize_loopS consumeQuotedIdentifierS e].
+  unfold consumeQuotedIdentifierS. change 34 with (Z.of_N 34).
+  rewrite (consumeUntilS_clean 34 1 body [] 1) by (auto; lia). cbn [bind].
+  destruct (json_unquote body) as [d|]; [|reflexivity]. cbn [bind ap].
+  subst f1. rewrite lex_eof. cbn [rev app ap]. replace (1 - 1) with 0 by lia.
+  replace (1 + zlen body + 1) with (zlen body + 2) by lia. reflexivity.
+Qed.
+
+(* `body` read as an expression: one JSON-literal token holding the body with \` read as ` *)
+Theorem literal_lexes body :
+  clean 96 body = true ->
+  tokenizeS (96%N :: body ++ [96%N]) =
+  Ok [Token tJSONLiteral (replace2 92 96 96 body) 1 (zlen (replace2 92 96 96 body)); Token tEOF [] (zlen body + 2) 0].
+Proof.
+  intros Hc. unfold tokenizeS. set (e := 96%N :: body ++ [96%N]).
+  remember (S (length e)) as f1 eqn:Ef1.
+  cbn [tokenize_loopS]. unfold nextS at 1. cbn [asuf ap]. unfold e at 1. rewrite (stepS_ascii 96) by reflexivity.
+  assert (ident_start (Z.of_N 96) = false) as -> by (vm_compute; reflexivity).
+  assert (assoc_Z (Z.of_N 96) basic_tokens = None) as -> by (vm_compute; reflexivity).
+  cbn -[tokenize_loopS consumeLiteralS e replace2].
+  unfold consumeLiteralS. change 96 with (Z.of_N 96) at 1.
+  rewrite (consumeUntilS_clean 96 1 body [] 1) by (auto; lia). cbn [bind ap].
+  subst f1. rewrite lex_eof. cbn [rev app ap]. replace (1 - 1) with 0 by lia.
+  replace (1 + zlen body + 1) with (zlen body + 2) by lia. reflexivity.
+Qed.
+
+(* the spelling of a JSON text inside backticks: ` written as \` *)
+Fixpoint lit_escape (t : bytes) : bytes :=
+  match t with
+  | [] => []
+  | c :: r => if N.eqb c 96 then 92%N :: 96%N :: lit_escape r else c :: lit_escape r
+  end.
+
+Lemma lit_escape_head t : match lit_escape t with 96%N :: _ => False | _ => True end.
+Proof. destruct t as [|c r]; cbn; [exact I|]. destruct (N.eqb_spec c 96); [exact I|]. destruct c as [|p]; try exact I.
+  repeat (destruct p as [p|p|]; try exact I). congruence. Qed.
+
+Theorem lit_unescape : forall t, replace2 92 96 96 (lit_escape t) = t.
+Proof.
+  induction t as [|c r IH]; [reflexivity|]. cbn [lit_escape]. destruct (N.eqb c 96) eqn:E.
+  - apply N.eqb_eq in E. subst c. cbn [replace2]. cbn. rewrite IH. reflexivity.
+  - pose proof (lit_escape_head r) as Hh. destruct (lit_escape r) as [|y r'] eqn:Er.
+    + cbn. f_equal. destruct r as [|d r0]; [reflexivity|]. cbn in Er. destruct (N.eqb d 96); discriminate.
+    + cbn [replace2]. assert (N.eqb c 92 && N.eqb y 96 = false) as ->.
+      { destruct (N.eqb_spec y 96); [subst; contradiction | rewrite andb_false_r; reflexivity]. }
+      f_equal. exact IH.
+Qed.
+
+(* texts whose backslashes come in pairs with the following byte, which is not a
+   backtick (JSON text: a backslash occurs only inside strings, as the first
+   byte of an escape) *)
+Fixpoint paired (t : bytes) : bool :=
+  match t with
+  | [] => true
+  | c :: r =>
+    if N.eqb c 92 then match r with [] => false | d :: r' => negb (N.eqb d 96) && paired r' end
+    else paired r
+  end.
+
+Lemma lit_escape_clean : forall n t, (length t <= n)%nat -> paired t = true -> clean 96 (lit_escape t) = true.
+Proof.
+  induction n as [|n IH]; intros t Hn Hp; [destruct t; [reflexivity | cbn in Hn; lia]|].
+  destruct t as [|c r]; [reflexivity|]. cbn [paired] in Hp. cbn [lit_escape].
+  destruct (N.eqb c 96) eqn:E96.
+  - apply N.eqb_eq in E96. subst c. cbn in Hp. cbn [clean]. cbn. apply IH; [cbn [length] in Hn; lia | exact Hp].
+  - destruct (N.eqb c 92) eqn:E92.
+    + destruct r as [|d r']; [discriminate|]. apply andb_true_iff in Hp as [Hd Hp]. apply negb_true_iff in Hd.
+      cbn [lit_escape]. rewrite Hd. cbn [clean]. rewrite E96, E92. apply IH; [cbn [length] in Hn; lia | exact Hp].
+    + cbn [clean]. rewrite E96, E92. apply IH; [cbn [length] in Hn; lia | exact Hp].
+Qed.
+
+(* a JSON text t spelled in backticks is read as one literal token holding t *)
+Theorem json_literal_lexes t :
+  paired t = true ->
+  tokenizeS (96%N :: lit_escape t ++ [96%N]) =
+  Ok [Token tJSONLiteral t 1 (zlen t); Token tEOF [] (zlen (lit_escape t) + 2) 0].
+Proof.
+  intros Hp. rewrite literal_lexes by (apply (lit_escape_clean (length t)); [lia | exact Hp]).
+  rewrite lit_unescape. reflexivity.
+Qed.
+
+
+(* ---- from tokens to what the expression denotes ---- *)
+Lemma parse_raw_tokens x p n q :
+  parse_tokens [Token tStringLiteral x p n; Token tEOF [] q 0] = Ok (Node ASTLiteral (NVJson (VStr x)) []).
+Proof. reflexivity. Qed.
+Lemma parse_quoted_tokens x p n q :
+  parse_tokens [Token tQuotedIdentifier x p n; Token tEOF [] q 0] = Ok (Node ASTField (NVStr x) []).
+Proof. reflexivity. Qed.
+Lemma parse_unquoted_tokens x p n q :
+  parse_tokens [Token tUnquotedIdentifier x p n; Token tEOF [] q 0] = Ok (Node ASTField (NVStr x) []).
+Proof. reflexivity. Qed.
+Lemma parse_lit_tokens t p n q :
+  parse_tokens [Token tJSONLiteral t p n; Token tEOF [] q 0] =
+  match json_unmarshal t with Some v => Ok (Node ASTLiteral (NVJson v) []) | None => Err ECompileOther end.
+Proof. unfold parse_tokens. cbn -[json_unmarshal]. destruct (json_unmarshal t); reflexivity. Qed.
+
+Variable ord : obj -> obj.
+
+(* a raw string literal denotes exactly the written string *)
+Theorem raw_string_denotes x d :
+  raw_ok x = true -> search ord (39%N :: raw_escape x ++ [39%N]) d = Ok (VStr x).
+Proof.
+  intros H. unfold search, parse. rewrite tokenize_view, (raw_string_lexes x H). cbn [bind].
+  rewrite parse_raw_tokens. reflexivity.
+Qed.
+
+(* a quoted identifier whose body decodes to s selects exactly the member s *)
+Theorem quoted_identifier_selects body s m :
+  clean 34 body = true -> json_unquote body = Some s ->
+  search ord (34%N :: body ++ [34%N]) (VObj m) = Ok (match obj_get s m with Some v => v | None => VNull end).
+Proof.
+  intros Hc Hu. unfold search, parse. rewrite tokenize_view, (quoted_identifier_lexes body Hc), Hu. cbn [bind].
+  rewrite parse_quoted_tokens. reflexivity.
+Qed.
+
+Theorem unquoted_identifier_selects name m :
+  valid_unquoted name = true ->
+  search ord name (VObj m) = Ok (match obj_get name m with Some v => v | None => VNull end).
+Proof.
+  intros Hv. unfold search, parse. rewrite tokenize_view, (unquoted_identifier_lexes name Hv). cbn [bind].
+  rewrite parse_unquoted_tokens. reflexivity.
+Qed.
+
+(* a JSON text in backticks denotes the value json.Unmarshal gives for it *)
+Theorem json_literal_denotes t d :
+  paired t = true ->
+  search ord (96%N :: lit_escape t ++ [96%N]) d =
+  match json_unmarshal t with Some v => Ok v | None => Err ECompileOther end.
+Proof.
+  intros Hp. unfold search, parse. rewrite tokenize_view, (json_literal_lexes t Hp). cbn [bind].
+  rewrite parse_lit_tokens. destruct (json_unmarshal t); reflexivity.
+Qed.
+
+
+(* ---- quoted identifiers in Go's JSON spelling ---- *)
+Lemma clean_high endr conts rest : N.ltb endr 128 = true -> Forall (fun x => N.leb 128 x = true) conts ->
+  clean endr (conts ++ rest) = clean endr rest.
+Proof.
+  intros He. induction 1 as [|x conts Hx _ IH]; [reflexivity|]. cbn [app clean].
+  assert (N.eqb x endr = false) as -> by lia. assert (N.eqb x 92 = false) as -> by lia. exact IH.
+Qed.
+
+Lemma clean_esc_rune r rest : valid_rune r = true -> clean 34 (esc_rune r ++ rest) = clean 34 rest.
+Proof.
+  intros Hv. unfold esc_rune. destruct (r <? 128) eqn:E.
+  - set (c := Z.to_N r).
+    destruct (N.eqb c 92 || N.eqb c 34) eqn:E1; [reflexivity|].
+    destruct (N.eqb c 8); [reflexivity|]. destruct (N.eqb c 12); [reflexivity|]. destruct (N.eqb c 10); [reflexivity|].
+    destruct (N.eqb c 13); [reflexivity|]. destruct (N.eqb c 9); [reflexivity|].
+    destruct (N.ltb c 32 || N.eqb c 60 || N.eqb c 62 || N.eqb c 38) eqn:E2.
+    + assert (Hr : 0 <= r < 128) by (unfold valid_rune in Hv; lia).
+      destruct (hex_digit_plain (Z.of_N c / 16) ltac:(lia)) as [A1 A2].
+      destruct (hex_digit_plain (Z.of_N c mod 16) ltac:(lia)) as [B1 B2].
+      cbn -[hex_digit Z.div Z.modulo]. rewrite A1, A2, B1, B2. reflexivity.
+    + cbn [app clean]. assert (N.eqb c 34 = false) as -> by lia. assert (N.eqb c 92 = false) as -> by lia. reflexivity.
+  - destruct ((r =? 8232) || (r =? 8233)) eqn:E2.
+    + destruct (hex_digit_plain (r mod 16) ltac:(lia)) as [A1 A2].
+      cbn -[hex_digit Z.modulo]. rewrite A1, A2. reflexivity.
+    + apply clean_high; [reflexivity | apply encode_high_all; [exact Hv | lia]].
+Qed.
+
+Lemma clean_json_escape rs : forallb valid_rune rs = true -> clean 34 (json_escape rs) = true.
+Proof.
+  induction rs as [|r rs IH]; intros Hv; [reflexivity|]. cbn in Hv. apply andb_true_iff in Hv as [Hr Hrs].
+  unfold json_escape in *. cbn [map concat]. rewrite clean_esc_rune by exact Hr. apply IH. exact Hrs.
+Qed.
+
+(* For every Unicode string s (a sequence of scalar values), the quoted
+   identifier spelled as json.Marshal spells s selects exactly the key s *)
+Theorem quoted_identifier_go_spelling rs m :
+  forallb valid_rune rs = true ->
+  search ord (marshal_string (string_of_runes rs)) (VObj m) =
+  Ok (match obj_get (string_of_runes rs) m with Some v => v | None => VNull end).
+Proof.
+  intros Hv. rewrite marshal_string_escape by exact Hv.
+  apply quoted_identifier_selects; [apply clean_json_escape; exact Hv | apply unquote_escape; exact Hv].
+Qed.
+
+
+(* ---- the same statements for Model/Lexer.v's tokenize ---- *)
+Theorem tok_unquoted name : valid_unquoted name = true ->
+  tokenize name = Ok [Token tUnquotedIdentifier name 0 (zlen name); Token tEOF [] (zlen name) 0].
+Proof. intros H. rewrite tokenize_view. apply unquoted_identifier_lexes. exact H. Qed.
+
+Theorem tok_unquoted_only s n t2 :
+  tokenize s = Ok [Token tUnquotedIdentifier s 0 n; t2] -> valid_unquoted s = true.
+Proof. rewrite tokenize_view. apply unquoted_identifier_exactly. Qed.
+
+Theorem tok_raw x : raw_ok x = true ->
+  tokenize (39%N :: raw_escape x ++ [39%N]) =
+  Ok [Token tStringLiteral x 1 (zlen x); Token tEOF [] (zlen (39%N :: raw_escape x ++ [39%N])) 0].
+Proof. intros H. rewrite tokenize_view. apply raw_string_lexes. exact H. Qed.
+
+Theorem tok_quoted rs : forallb valid_rune rs = true ->
+  tokenize (marshal_string (string_of_runes rs)) =
+  Ok [Token tQuotedIdentifier (string_of_runes rs) 0 (zlen (string_of_runes rs));
+      Token tEOF [] (zlen (json_escape rs) + 2) 0].
+Proof.
+  intros Hv. rewrite tokenize_view, marshal_string_escape by exact Hv.
+  rewrite quoted_identifier_lexes by (apply clean_json_escape; exact Hv).
+  rewrite unquote_escape by exact Hv. reflexivity.
+Qed.
+
+Theorem tok_literal t : paired t = true ->
+  tokenize (96%N :: lit_escape t ++ [96%N]) =
+  Ok [Token tJSONLiteral t 1 (zlen t); Token tEOF [] (zlen (lit_escape t) + 2) 0].
+Proof. intros H. rewrite tokenize_view. apply json_literal_lexes. exact H. Qed.
 
 End WithNum.
